@@ -561,11 +561,21 @@ class atom(boolean.AndRestriction):
 
         # Skip the (very common) case of one of us not having use deps:
         if self.use and other.use:
-            # Set of flags we do not have in common:
-            flags = set(self.use) ^ set(other.use)
-            for flag in flags:
-                # If this is unset and we also have the set version we fail:
-                if flag[0] == "-" and flag[1:] in flags:
+            # flag -> the (+)/(-) defaults it is forced on resp. off with:
+            forced = {}
+            for flag in set(self.use) | set(other.use):
+                default = None
+                if flag[-1] == ")":
+                    default, flag = flag[-2], flag[:-3]
+                if flag[0] == "-":
+                    forced.setdefault(flag[1:], ([], []))[1].append(default)
+                else:
+                    forced.setdefault(flag, ([], []))[0].append(default)
+            for on, off in forced.values():
+                # If this is unset and we also have the set version we fail;
+                # unless a package lacking the flag can satisfy both through
+                # their defaults, x(+) and -x(-).
+                if on and off and (set(on) != {"+"} or set(off) != {"-"}):
                     return False
 
         # Remaining thing to check is version restrictions. Get the
